@@ -166,6 +166,14 @@ func TestDifferential(t *testing.T) {
 	if !setup(t) {
 		t.Skip("setup failed")
 	}
+	ev.Pinned(t, "C01", "TestDifferential", func(raw json.RawMessage) string {
+		var c Case
+		if json.Unmarshal(raw, &c) != nil {
+			return ""
+		}
+		rep := tv.Validate(c.Src, runner)
+		return strings.Join(rep.Violations, "\n")
+	})
 	rapid.Check(t, func(t *rapid.T) {
 		p := gen.Generate(t, config())
 		labels := map[string]bool{}
